@@ -174,6 +174,14 @@ func c17Sequential(r *zsim.Run) {
 			v, ok := c.Get(k)
 			r.Logf("get %s -> %v %v", k, v, ok)
 			e := model[k]
+			if e != nil && !ok && r.Now() >= mustUntil(e) {
+				// it expired between the look at the map above and this Get (operations on the tick race the
+				// expiry callbacks of that tick): inside its window, so a legitimate expiry
+				r.NonTrivial()
+				r.Probe("expired_between_look_and_get")
+				drop(k)
+				e = nil
+			}
 			if (e != nil) != ok || ok && v != any(e.val) {
 				want := "absent"
 				if e != nil {
@@ -202,6 +210,12 @@ func c17Sequential(r *zsim.Run) {
 			})
 			r.Logf("take %s -> %v %v fetched=%v", k, v, err, fetched)
 			e := model[k]
+			if e != nil && fetched && r.Now() >= mustUntil(e) {
+				r.NonTrivial()
+				r.Probe("expired_between_look_and_take")
+				drop(k)
+				e = nil
+			}
 			switch {
 			case e != nil:
 				if fetched || err != nil || v != any(e.val) {
